@@ -17,7 +17,7 @@ THEOREMS = ["Econf.C04_read_total", "Econf.C04_line_total", "Econf.C04_split_los
 # the string helpers whose C source is translated to MiniC on every run (memory safety for every input is a theorem about the translation)
 LEAF_FNS = ["stripbrackets", "addbrackets", "toLowerCase", "hashstring", "ltrim", "rtrim", "trim", "check_delim", "replace_str",
             "has_group", "first_entry", "first_definition", "getFromGroupList", "find_key",
-            "setGroupList", "cpy_file_entry", "merge3"]
+            "setGroupList", "cpy_file_entry", "merge3", "mergeFiles"]
 SHRINK = False
 RULE = ("three input streams under ASan+UBSan with a per-scenario timeout: (1) all byte strings up to the tier's length over "
         "{a = space # [ ] \" newline} and random strings over a wider alphabet incl. NUL, tab, 0x80, ';'; (2) conventional documents "
